@@ -24,6 +24,9 @@
                                                              dealias_is_copy_first (pure: the
                                                              spec's evaluation of aliased
                                                              arguments = explicit copy first)
+   The histories quantified over include Array::append(const T*, n) with a pointer into the array's
+   own storage (OAppendRange x x i n), Array::remove(const Iterator&), removeFront() and
+   removeBack() (ORemVia).
    All theorems are about the Model (LifeModel.v); its tie to the C++ code is the
    correspondence check (checks/C04.py).  Memory below the model's allocations (the allocator
    itself) is observed by ASan/the ledger of the harness only. *)
@@ -72,9 +75,12 @@ Theorem run_refines_spec : forall (nv : nat) (ops : list op) (st : state),
 Proof. exact run_refines_spec_proof. Qed.
 Print Assumptions run_refines_spec.
 
-(* After x := copy of y (construction or assignment) x has y's content, y is unchanged, and any
-   further history that does not write z leaves z's content alone (z := y: histories on the
-   copy do not reach the source; z := x: vice versa). *)
+(* After x := copy of y (construction or assignment) x has y's content and y is unchanged (first
+   two conjuncts).  The third conjunct is a FRAME fact that holds for every variable, copied or
+   not: a further history none of whose operations WRITES z (it may read z, copy from z, pass
+   references to z's elements) leaves z's content alone.  Instantiated with z := y it says that
+   histories on the copy do not reach the source, with z := x the converse; that the copy shares
+   no instance or allocation with its source is no_leak_no_sharing. *)
 Theorem copies_are_deep : forall (nv : nat) (ops1 : list op) (st1 : state) (c : op) (st2 : state) (x y : nat),
   run (init nv) ops1 = Ok st1 -> (c = OCopyNew x y \/ c = OAssign x y) -> step st1 c = Ok (true, st2) ->
   sget (abs st2) x = sget (abs st1) y /\
@@ -151,6 +157,21 @@ Example unrepaired_append_is_an_error :
   end = true.
 Proof. vm_compute. reflexivity. Qed.
 
+(* ... and the same for append(const T*, n): `arr_append_range a (Some a) i n` takes the sources
+   from the array as it was before reserve() - what the code did before the pointer was re-based *)
+Example unrepaired_append_range_is_an_error :
+  match run (init 1) [ONew 0 KArray; OIns 0 PBack (AVal 0) (AVal 5); OIns 0 PBack (AVal 0) (AVal 6); OIns 0 PBack (AVal 0) (AVal 7)] with
+  | Ok st => match getv (svars st) 0 with
+             | Some (CA a) => match arr_append_range a (Some a) 1 2 (sw st), arr_append_range a None 1 2 (sw st) with
+                              | Err (EUseAfterFree _), Ok (a', _) => Nat.eqb (length (aelems a')) 5
+                              | _, _ => false
+                              end
+             | _ => false
+             end
+  | Err _ => false
+  end = true.
+Proof. vm_compute. reflexivity. Qed.
+
 Example copies_nonvacuous :
   match run (init 3) [ONew 0 KMultiMap; OIns 0 PBack (AVal 3) (AVal 1); OIns 0 PBack (AVal 3) (AVal 2)] with
   | Ok st1 => match step st1 (OCopyNew 1 0) with
@@ -172,3 +193,12 @@ Example alias_nonvacuous :
   = [ONew 0 KList; OIns 0 PBack (AVal 0) (AVal 4); OIns 0 PFront (AVal 0) (AVal 4);
      OCopyNew 2 0; OAddAll 0 PBack 2; ODel 2; OCopyNew 2 0; OAssign 0 2; ODel 2].
 Proof. vm_compute. reflexivity. Qed.
+
+Example alias_range_nonvacuous :
+  dealias_run (sinit 3) 2 [ONew 0 KArray; OIns 0 PBack (AVal 0) (AVal 4); OIns 0 PBack (AVal 0) (AVal 5); OAppendRange 0 0 0 2]
+  = [ONew 0 KArray; OIns 0 PBack (AVal 0) (AVal 4); OIns 0 PBack (AVal 0) (AVal 5);
+     OCopyNew 2 0; OAppendRange 0 2 0 2; ODel 2] /\
+  spec_run (sinit 3) [ONew 0 KArray; OIns 0 PBack (AVal 0) (AVal 4); OIns 0 PBack (AVal 0) (AVal 5); OAppendRange 0 0 0 2;
+                      ORemVia VIter 0 1; ORemVia VBack 0 0; ORemVia VFront 0 0]
+  = [Some (KArray, [(None, Some 4%Z)]); None; None].
+Proof. split; vm_compute; reflexivity. Qed.
